@@ -360,6 +360,38 @@ func skipDir(rel string) bool {
 	return false
 }
 
+type seam struct{ file, old, new string }
+
+func applySeams(root string, stats map[string]int) bool {
+	seams := []seam{
+		{"pkg/replication/replica.go", "connector:      &DefaultPrimaryConnector{},", "connector:      verifConnector(),"},
+		{"pkg/replication/manager.go", "return net.Listen(\"tcp\", address)", "return verifListen(address)"},
+		{"pkg/replication/manager.go", "NewReplica(lastApplied, m.walApplier, replicaConfig)", "NewReplica(lastApplied, verifWrapApplier(m.config.ListenAddr, m.walApplier), replicaConfig)"},
+	}
+	content := map[string]string{}
+	for _, sm := range seams {
+		if _, ok := content[sm.file]; !ok {
+			b, err := os.ReadFile(filepath.Join(root, sm.file))
+			if err != nil {
+				return false
+			}
+			content[sm.file] = string(b)
+		}
+		if strings.Count(content[sm.file], sm.old) != 1 {
+			fmt.Fprintf(os.Stderr, "simrewrite: seam anchor not found exactly once in %s: %q - manager seams not applied\n", sm.file, sm.old)
+			return false
+		}
+		content[sm.file] = strings.Replace(content[sm.file], sm.old, sm.new, 1)
+	}
+	for f, c := range content {
+		if err := os.WriteFile(filepath.Join(root, f), []byte(c), 0644); err != nil {
+			die("%v", err)
+		}
+	}
+	stats["manager-seams"] = len(seams)
+	return true
+}
+
 func main() {
 	if len(os.Args) < 2 {
 		die("usage: simrewrite <scratch-module-root>")
@@ -406,6 +438,19 @@ func main() {
 		return os.WriteFile(p, out, 0644)
 	})
 	if err != nil {
+		die("%v", err)
+	}
+	// Seams for running replication.Manager itself on the simulated transport:
+	// three one-line substitutions in pkg/replication. If any anchor is gone
+	// (the code was changed) none is applied and the harness falls back to
+	// mirroring the manager's start-up.
+	hooked := applySeams(root, total)
+	hk := "false"
+	if hooked {
+		hk = "true"
+	}
+	if err := os.WriteFile(filepath.Join(root, "pkg/replication/zz_verif_hooked.go"),
+		[]byte("//go:build verif\n\npackage replication\n\n// VerifHooked reports whether the manager seams were applied to this copy.\nconst VerifHooked = "+hk+"\n"), 0644); err != nil {
 		die("%v", err)
 	}
 	keys := make([]string, 0, len(total))
